@@ -197,6 +197,13 @@ def _lin(t, tc):
         return {x: -c for x, c in a[0].items()}, -a[1]
     if t[0] == "cast" and t[1] == "IntToInt" and tc:
         return _lin(t[2], tc)
+    if t[0] == "call" and isinstance(t[1], str) and t[2] and t[1].split("::")[-1] in ("expect", "unwrap") and "option::Option" in t[1]:
+        # checked_add / checked_sub(..).expect(..): the sum / difference wherever it has a value
+        inner = t[2][0]
+        while inner[0] in ("ref", "deref"):
+            inner = inner[2] if inner[0] == "ref" else inner[1]
+        if inner[0] == "call" and isinstance(inner[1], str) and len(inner[2]) == 2 and inner[1].split("::")[-1] in ("checked_add", "checked_sub"):
+            return _add(_lin(inner[2][0], tc), _lin(inner[2][1], tc), 1 if inner[1].endswith("checked_add") else -1)
     return {t: 1}, 0
 
 
@@ -569,6 +576,12 @@ def ieval(ft, t, env, assume=None, _nested=False):
         if a is None or b is None:
             raise Undetermined("eq on unknown values")
         return int((_tup(a) == _tup(b)) == t[1].endswith("::eq"))
+    if tag == "call" and isinstance(t[1], str) and len(t[2]) >= 1 and t[1].split("::")[-1] in ("expect", "unwrap") and t[2][0][0] == "call" \
+            and isinstance(t[2][0][1], str) and t[2][0][1].split("::")[-1] in ("checked_add", "checked_sub", "checked_mul") and len(t[2][0][2]) == 2:
+        # checked arithmetic that must succeed: the exact result (whether it can fail is an obligation of C14)
+        a = ieval(ft, t[2][0][2][0], env, assume, _nested)
+        b = ieval(ft, t[2][0][2][1], env, assume, _nested)
+        return {"checked_add": a + b, "checked_sub": a - b, "checked_mul": a * b}[t[2][0][1].split("::")[-1]]
     if tag == "call" and isinstance(t[1], str) and len(t[2]) >= 1 and t[1].split("::")[-1] in ("expect", "unwrap") and t[2][0][0] == "call" \
             and isinstance(t[2][0][1], str) and t[2][0][1].endswith("::try_from") and "TryFrom<" in t[2][0][1]:
         # integer conversion that must succeed: the value itself when it fits the target type
